@@ -77,6 +77,11 @@ func assignTo(dec *Decoder, o interface{}, p interface{}) {
 }
 
 func ptrCopy(dec *Decoder, o interface{}, p interface{}) {
+	if t := reflect2.TypeOf(o); t.Kind() != reflect.Ptr && t.LikePtr() {
+		// a map, chan, func or single-pointer struct held by value is the
+		// interface word itself, not the address of the value: box it first
+		o = toPtr(t.Type1(), o)
+	}
 	*(*unsafe.Pointer)(reflect2.PtrOf(p)) = reflect2.PtrOf(o)
 }
 
@@ -85,6 +90,11 @@ func sliceCopy(dec *Decoder, o interface{}, p interface{}) {
 }
 
 func mapCopy(dec *Decoder, o interface{}, p interface{}) {
+	if reflect.TypeOf(o).Kind() == reflect.Map {
+		// held by value the interface word is the map itself, not its address
+		reflect.ValueOf(p).Elem().Set(reflect.ValueOf(o))
+		return
+	}
 	reflect2.TypeOf(p).UnsafeSet(reflect2.PtrOf(p), reflect2.PtrOf(o))
 }
 
